@@ -135,9 +135,23 @@ def run(rep: Report, tier: str) -> None:
         loc(gen.node),
     )
     life2, where2 = _container_lifetime(m, "__tax_sheet_year_2_row")
-    key_cls = prog.cls(FR, "_AssetAndYear")
-    kfields = [n for n, _ in key_cls.dataclass_fields()]
-    rep.check("asset" in kfields and "year" in kfields, rb, FR, "_AssetAndYear", "(asset, year) table is keyed by both asset and year", f"_AssetAndYear has fields {kfields}: with a table that lives for the whole {life2} the key must include the asset", loc(key_cls.node))
+    # the year->row table: either it does not outlive one asset, or every key written to it and looked up in it includes the asset
+    key_nodes = [n for n in ast.walk(gen.node) if isinstance(n, ast.Subscript) and isinstance(n.value, ast.Attribute) and n.value.attr == "__tax_sheet_year_2_row"]
+    key_nodes += [n.args[0] for n in ast.walk(gen.node) if isinstance(n, ast.Call) and isinstance(n.func, ast.Attribute) and n.func.attr in ("get", "setdefault", "pop") and isinstance(n.func.value, ast.Attribute) and n.func.value.attr == "__tax_sheet_year_2_row" and n.args]
+    keys_txt = [unparse(n.slice) if isinstance(n, ast.Subscript) else unparse(n) for n in key_nodes]
+    if not keys_txt:
+        raise AnalysisError("no access to Generator.__tax_sheet_year_2_row found")
+    with_asset = [any(isinstance(x, ast.Name) and x.id == "asset" for x in ast.walk(n.slice if isinstance(n, ast.Subscript) else n)) for n in key_nodes]
+    rep.check(
+        life2 == "asset" or all(with_asset),
+        rb,
+        FR,
+        "Generator.__tax_sheet_year_2_row",
+        "year->row table does not outlive one asset, or its keys include the asset",
+        f"the year->row table of the Summary links lives for the whole {life2} (fresh object bound in: {where2 or 'class body only'}) and is accessed with keys {sorted(set(keys_txt))}: "
+        "a year that has no visible row for one asset picks up the row another asset recorded for that year (a link to an unrelated row instead of no link)",
+        loc(gen.node),
+    )
     from . import c11
 
     c11.check_split(rep, rb)
@@ -151,16 +165,34 @@ def run(rep: Report, tier: str) -> None:
     n_store = 0
     prev = None
     for p in paths:
-        stores = [e for e in p.stores() if e[1][0] == "fld" and e[1][2] == Y2R]
         conds = [c for c in p.conds()]
+        # a record is a plain store (overwrites) or table.setdefault(key, row) / a store under 'key not in table' (first row wins)
+        records = []
+        for e in p.stores():
+            if e[1][0] == "fld" and e[1][2] == Y2R:
+                guarded = any(c[0] == "cmp" and c[1] == "not in" and tkey(c[2]) == tkey(e[2]) and c[3][0] == "fld" and c[3][2] == Y2R for c in conds)
+                records.append((e[2], e[3], "first-wins" if guarded else "overwrite", e[5]))
+        for e in p.events:
+            if e[0] == "setdefault" and e[1][0] == "fld" and e[1][2] == Y2R:
+                records.append((e[2], e[3], "first-wins", e[4]))
+        stores = records
         differs = any(c[0] == "cmp" and c[1] == "!=" and {tkey(c[2]), tkey(c[3])} == {tkey(ev_year), tkey(("sym", "year"))} for c in conds)
         same = any(c[0] == "cmp" and c[1] == "==" and {tkey(c[2]), tkey(c[3])} == {tkey(ev_year), tkey(("sym", "year"))} for c in conds)
         if stores:
             n_store += 1
-            k = stores[0][2]
-            ok = len(stores) == 1 and differs and k[0] == "new" and dict(k[2]).get("asset") == ("sym", "asset") and tkey(dict(k[2]).get("year", ("unk", ""))) == tkey(ev_year) and tkey(stores[0][3]) == tkey(mk_add([("sym", "row_index"), ("const", 1)]))
-            others = [c for c in conds if _mentions_year_store_guard(c, ev_year) is False]
-            rep.check(ok, rc, fi.module, fi.qualname, "first row of a year: table[(asset, event year)] = row_index + 1", f"the (asset, year) table is written as {[(show(e[2])[:80], show(e[3])[:40]) for e in stores]} under {[show(c)[:70] for c in conds if 'year' in show(c)][:3]}; expected (asset, taxable event's year) -> row_index + 1 exactly when the event's year differs from the previous row's year", loc(loop))
+            k = stores[0][0]
+            ok = len(stores) == 1 and differs and k[0] == "new" and dict(k[2]).get("asset") == ("sym", "asset") and tkey(dict(k[2]).get("year", ("unk", ""))) == tkey(ev_year) and tkey(stores[0][1]) == tkey(mk_add([("sym", "row_index"), ("const", 1)]))
+            rep.check(ok, rc, fi.module, fi.qualname, "first row of a year: table[(asset, event year)] <- row_index + 1", f"the (asset, year) table is written as {[(show(e[0])[:80], show(e[1])[:40]) for e in stores]} under {[show(c)[:70] for c in conds if 'year' in show(c)][:3]}; expected (asset, taxable event's year) -> row_index + 1 exactly when the event's year differs from the previous row's year", loc(loop))
+            rep.check(
+                all(e[2] == "first-wins" for e in stores),
+                rc,
+                fi.module,
+                fi.qualname,
+                "the first row recorded for a year is kept (setdefault / 'not in' guard), never overwritten",
+                f"{short(stores[0][3], 100)} overwrites an existing (asset, year) entry: rows are sorted by instant but the year is the event's local year, so with disposals around New Year in different UTC offsets "
+                "the years interleave (2021, 2020, 2021) and the Summary line of 2021 links to a later row instead of the first gain / loss row of that year",
+                loc(stores[0][3]),
+            )
         else:
             rep.check(same or not differs, rc, fi.module, fi.qualname, "rows of the same year as the previous row do not overwrite the entry", "a path where the event's year differs from the previous row's year records nothing", loc(loop))
         # the loop-carried 'year' must be this row's event year after the iteration
@@ -175,6 +207,10 @@ def run(rep: Report, tier: str) -> None:
         c = norm.cond(ifs[0].test, c13._iter_ctx(fr, fi))
         # evaluated without the loop variable binding: compare structure
         ok = c[0] == "cmp" and c[1] == "!=" and "year" in show(c)
+    if ok is False and len(ifs) == 1:
+        c = norm.cond(ifs[0].test, c13._iter_ctx(fr, fi))
+        atoms = list(c[1]) if c[0] == "and" else [c]
+        ok = sum(1 for a in atoms if a[0] == "cmp" and a[1] == "!=" and "year" in show(a)) == 1 and all((a[0] == "cmp" and a[1] == "!=" and "year" in show(a)) or (a[0] == "cmp" and a[1] == "not in" and Y2R in show(a)) for a in atoms)
     rep.check(ok, rc, fi.module, fi.qualname, "the first-row test is exactly 'event year != previous row's year'", f"the (asset, year) table is written under '{short(ifs[0].test, 100) if ifs else None}'; expected exactly the comparison of the event's year with the previous row's year (rows without a lot, e.g. income, must be treated like any other row)", loc(ifs[0]) if ifs else loc(loop))
     init_year = [n for n in fi.node.body if isinstance(n, (ast.Assign, ast.AnnAssign)) and unparse(n.targets[0] if isinstance(n, ast.Assign) else n.target) == "year"]
     rep.check(len(init_year) == 1 and unparse(init_year[0].value) == "0", rc, fi.module, fi.qualname, "the carried year starts at 0 (no year)", "the loop-carried year no longer starts at 0", loc(fi.node))
